@@ -30,6 +30,7 @@ def segment_edits(ref, typ, segs, with_last=True, with_dstar=True):
         out.append(("seg", i, segs[i] + "," + other))
         out.append(("seg", i, segs[i] + ",bogus"))
         out.append(("seg", i, "bogus,zz8"))                  # two alternatives that cannot be typed
+        out.append(("seg", i, segs[i] + ",*"))               # overlapping alternatives: results must still be unique
         rare = (vals[-1] if vals else "zz9") if ref.templates[typ][i][1] is not None else "zz9"
         if rare != other:
             out.append(("seg", i, segs[i] + "," + rare))     # a valid value that is unlikely to exist in a universe
